@@ -2,7 +2,9 @@
 (* Model-checking instances of Action: rule pools, query scripts, behaviour dump. *)
 EXTENDS Action, Json
 
-IdOf(i) == CASE i = 1 -> "r1" [] i = 2 -> "r2" [] i = 3 -> "r3" [] i = 4 -> "r4"
+\* ids are compared as STRINGS (rank desc, id desc): all-digit ids whose string order ("07" < "10" < "7" < "9") is not their
+\* numeric order, two of them equal as numbers; n is the position in the string order
+IdOf(i) == CASE i = 1 -> "07" [] i = 2 -> "10" [] i = 3 -> "7" [] i = 4 -> "9"
 Cond == { <<{}, FALSE>>, <<{404}, FALSE>>, <<{404}, TRUE>>, <<{}, TRUE>> }
 Cond3 == { <<{}, FALSE>>, <<{404}, FALSE>>, <<{404}, TRUE>> }
 Cond2 == { <<{}, FALSE>>, <<{404}, FALSE>> }
